@@ -522,7 +522,7 @@ void runC21() {
     } else if (sel >= 39) {
       s.kind = 1;
       s.simShape = static_cast<int>((idx / 41 + sel) % 4);
-      long maxR = vrt::g_args.getInt("simrounds", (VRT_TSAN || VRT_ASAN) ? 150 : (vrt::thorough() ? 3000 : 1000));
+      long maxR = vrt::g_args.getInt("simrounds", (VRT_TSAN || VRT_ASAN) ? 150 : (vrt::thorough() ? 3000 : 450));
       s.simRounds = static_cast<int>(r.range(maxR / 3, maxR));
       s.waiters = 1;
       key = std::string("latch/simultaneous-final/") + kSimShapes[s.simShape].name;
